@@ -813,9 +813,17 @@ func (c *oblCtx) absentRepair(is *ast.IfStmt) string {
 func nonNilAtEnd(list []ast.Stmt, x string) bool {
 	state := false
 	assigned := false
+	okName := "" // ok of `x, ok = y.(T)`: x is non-nil once ok is known to hold
 	for _, st := range list {
 		switch s := st.(type) {
 		case *ast.AssignStmt:
+			if s.Tok != token.DEFINE && len(s.Lhs) == 2 && len(s.Rhs) == 1 && es(s.Lhs[0]) == x {
+				if ta, isTA := ast.Unparen(s.Rhs[0]).(*ast.TypeAssertExpr); isTA && ta.Type != nil {
+					assigned, state = true, false
+					okName = es(s.Lhs[1])
+					continue
+				}
+			}
 			if s.Tok == token.DEFINE {
 				// `x := ...` inside the block declares a new variable that shadows x: the outer x is untouched,
 				// and every later mention of the name in this block is about the inner one
@@ -834,6 +842,11 @@ func nonNilAtEnd(list []ast.Stmt, x string) bool {
 			}
 		case *ast.IfStmt:
 			if be, ok := ast.Unparen(s.Cond).(*ast.BinaryExpr); ok && be.Op == token.EQL && es(be.X) == x && es(be.Y) == "nil" && terminates(s.Body) && s.Else == nil {
+				state = true
+				continue
+			}
+			// `if !ok { <terminates> }` after `x, ok = y.(T)`
+			if u, ok := ast.Unparen(s.Cond).(*ast.UnaryExpr); ok && u.Op == token.NOT && okName != "" && es(u.X) == okName && terminates(s.Body) && s.Else == nil && s.Init == nil {
 				state = true
 				continue
 			}
